@@ -379,10 +379,14 @@ class FSModel:
             return z3.BoolVal(True)
         raise Unsupported(f"presence of {loc!r}")
 
+    stat_faults = False      # contexts that set this model os.path.isfile answering False for an existing file whose stat() fails (EIO, EACCES, ...)
+
     def x_isfile(self, interp, loc):
         self.interfere(interp)
         fs = self.fs
         if isinstance(loc, LIn):
+            if self.stat_faults and self.faults and interp.ex.decide(None, "fault:isfile-stat-fails"):
+                return False       # os.path.isfile swallows every OSError of stat(): "not a file" although it is there
             return SBool(z3.And(fs.dirs[JD.mk(loc.p, loc.i)], Node.is_File(fs.node(loc))))
         if isinstance(loc, LPF):
             return SBool(Node.is_File(fs.pf[PF.mk(loc.p, loc.n)]))
